@@ -212,6 +212,12 @@ func instantiateMode(w *World, assume []*Term, goal *Term, rich bool) ([]*Term, 
 	}
 	// candidates in order of discovery (those from the goal first)
 	cl := append([]*Term(nil), candOrder...)
+	// lemma axioms (any sorts): instantiate by argument-position matching against ground applications
+	for _, ax := range w.axioms {
+		if ax.Op == "forall" && ax.Lemma {
+			out = append(out, matchInstances(ax, append(append([]*Term{}, out...), goal), 48)...)
+		}
+	}
 	n := len(out)
 	for i := 0; i < n; i++ {
 		a := out[i]
@@ -243,9 +249,13 @@ func instantiateMode(w *World, assume []*Term, goal *Term, rich bool) ([]*Term, 
 			offs := map[string]*Term{}
 			collectOffsets(a.Args[0], a.Vars[0].Op, offs)
 			n := 0
+			ngo := nGoal
+			if ngo == 0 || ngo > len(cl) {
+				ngo = len(cl)
+			}
 			for _, ok := range sortedKeys(offs) {
-				for _, c := range cl {
-					if n > 40 {
+				for _, c := range cl[:ngo] {
+					if n > 12 {
 						break
 					}
 					if c.String() == ok {
@@ -300,4 +310,98 @@ func collectOffsets(t *Term, v string, out map[string]*Term) {
 	for _, c := range t.Args {
 		collectOffsets(c, v, out)
 	}
+}
+
+// matchInstances instantiates a quantified lemma by matching: a bound variable that occurs as the
+// p-th argument of function g in the lemma takes the p-th arguments of the ground applications of g
+// found in the given terms.
+func matchInstances(lemma *Term, ground []*Term, limit int) []*Term {
+	bound := map[string]bool{}
+	for _, v := range lemma.Vars {
+		bound[v.Op] = true
+	}
+	// positions: var -> list of (fun, argpos)
+	type pos struct {
+		fun string
+		p   int
+	}
+	where := map[string][]pos{}
+	var walk func(t *Term)
+	walk = func(t *Term) {
+		if len(t.Args) > 0 && t.Op != "forall" && t.Op != "exists" {
+			for i, a := range t.Args {
+				if len(a.Args) == 0 && bound[a.Op] && strings.HasPrefix(t.Op, "sf_") {
+					where[a.Op] = append(where[a.Op], pos{t.Op, i})
+				}
+			}
+		}
+		for _, a := range t.Args {
+			walk(a)
+		}
+	}
+	walk(lemma.Args[0])
+	// ground applications
+	apps := map[string][]*Term{}
+	seen := map[string]bool{}
+	var collect func(t *Term, b map[string]bool)
+	collect = func(t *Term, b map[string]bool) {
+		if t.Op == "forall" || t.Op == "exists" {
+			return
+		}
+		if strings.HasPrefix(t.Op, "sf_") && len(t.Args) > 0 && !seen[t.String()] {
+			seen[t.String()] = true
+			apps[t.Op] = append(apps[t.Op], t)
+		}
+		if t.Def != nil {
+			collect(t.Def, b)
+		}
+		for _, a := range t.Args {
+			collect(a, b)
+		}
+	}
+	for _, g := range ground {
+		collect(g, nil)
+	}
+	cands := make([][]*Term, len(lemma.Vars))
+	for i, v := range lemma.Vars {
+		have := map[string]bool{}
+		for _, ps := range where[v.Op] {
+			for _, app := range apps[ps.fun] {
+				if ps.p < len(app.Args) {
+					c := app.Args[ps.p]
+					if c.Sort == v.Sort && !have[c.String()] {
+						have[c.String()] = true
+						cands[i] = append(cands[i], c)
+					}
+				}
+			}
+		}
+		if len(cands[i]) == 0 {
+			return nil
+		}
+		if len(cands[i]) > 4 {
+			cands[i] = cands[i][:4]
+		}
+	}
+	var out []*Term
+	var rec func(i int, m map[string]*Term)
+	rec = func(i int, m map[string]*Term) {
+		if len(out) >= limit {
+			return
+		}
+		if i == len(lemma.Vars) {
+			cp := map[string]*Term{}
+			for k, v := range m {
+				cp[k] = v
+			}
+			out = append(out, subst(lemma.Args[0], cp))
+			return
+		}
+		for _, c := range cands[i] {
+			m[lemma.Vars[i].Op] = c
+			rec(i+1, m)
+		}
+	}
+	rec(0, map[string]*Term{})
+	return out
 }
